@@ -31,6 +31,7 @@ pub fn run_history(w: &mut World, node: usize, op: HistOp, count: u32, tag: u64)
     let secret = find_key(w, node, Kind::Secret);
     let pke_pub = find_key(w, node, Kind::PkePublic);
     let mut done = 0u32;
+    let mut chain: Option<String> = None;
     for i in 0..count {
         let spec = RngSpec::Tagged { tag: crate::prng::mix(tag, "hist", i as u64) };
         let mut fresh: Vec<Vec<u8>> = Vec::new(); // the per-output random fields
@@ -59,6 +60,33 @@ pub fn run_history(w: &mut World, node: usize, op: HistOp, count: u32, tag: u64)
                 };
                 why = format!("token nonce {} is not (the spec function of) a draw of this call", hex::encode(&n));
                 fresh.push(n);
+            }
+            HistOp::Refresh => {
+                let Some((_, k)) = &local else { return };
+                w.arm(&spec, None);
+                let r = match &chain {
+                    None => be.seal(Purp::Local, k, &Claims::Raw(msg.clone()), &Foot::Unit, b"", None, false),
+                    Some(prev) => be.reseal(Purp::Local, k, k, prev, crate::backend::PayloadKind::Raw, crate::backend::FootKind::Unit, b"", None, b""),
+                };
+                let draws = w.disarm();
+                let Out::Ok(t) = r else {
+                    w.violate("C01", "reseal-failed", bk, "reseal-local", "", format!("history step {i}: {}", r.class()));
+                    return;
+                };
+                let Some(p) = TokParts::parse(&t) else { return };
+                let nl = nonce_len(f, Purp::Local);
+                if p.payload.len() < nl {
+                    return;
+                }
+                let n = p.payload[..nl].to_vec();
+                attributable = match f {
+                    1 => draws.iter().any(|d| d.bytes.len() >= 32 && refimpl::synthetic_nonce(1, &d.bytes[..32], &msg) == n),
+                    2 => draws.iter().any(|d| d.bytes.len() >= 24 && refimpl::synthetic_nonce(2, &d.bytes[..24], &msg) == n),
+                    _ => draws.iter().any(|d| d.bytes == n),
+                };
+                why = format!("nonce {} of the refreshed token is not (the spec function of) a draw of the refreshing call", hex::encode(&n));
+                fresh.push(n);
+                chain = Some(t);
             }
             HistOp::Sign => {
                 let Some((_, k)) = &secret else { return };
